@@ -216,9 +216,10 @@ class Observer(object):
 class AI(object):
     def __init__(self, graph, observer=None, partition=None, max_parts=48, max_depth=12, uninit_locals=True,
                  inline=None, ptr_partition=True, unroll=None, unroll_cap=48, assume_returns=None,
-                 assume_member=None, method_model=None, loop_once=None, assume_loc=None, pure_memo=False, auto_unroll=False):
+                 assume_member=None, method_model=None, loop_once=None, assume_loc=None, pure_memo=False, auto_unroll=False, value_numbers=False):
         self.pure_memo = pure_memo
         self.auto_unroll = auto_unroll
+        self.value_numbers = value_numbers
         self.G = graph
         self.obs = observer or Observer()
         self.partition = partition or (lambda loc, v: None)
@@ -602,6 +603,8 @@ class AI(object):
                 return out
         for (v, s) in self.eval(init, st, u):
             self.assign(loc, v, s, dtype(d), init, u)
+            if self.value_numbers and isinstance(v, Ptr):
+                self._vn_copy(s, loc, init, u, d)
             out.append(s)
         return out
 
@@ -1267,6 +1270,8 @@ class AI(object):
         return None
 
     def _check_access(self, e, pv, s, u, store):
+        if store and self.value_numbers:
+            self._vn_kill_bytes(s)          # a store through a pointer may change any byte a pointer value points at
         if pv.target is None or pv.off is None:
             if store:
                 self.obs.store(self, e, pv, None, s)
@@ -1365,6 +1370,8 @@ class AI(object):
                         self._check_access(a, pv, s2, u, store=True)
                     if l is not None:
                         self.assign(l, v, s2, dtype(a), e, u)
+                        if self.value_numbers and isinstance(v, Ptr):
+                            self._vn_copy(s2, l, b, u, e)
                     out.append((v, s2))
             return out
         if op in ('<', '>', '<=', '>=', '==', '!='):
@@ -1664,6 +1671,8 @@ class AI(object):
         return self._unknown_call(e, args, st, u, c)
 
     def _unknown_call(self, e, args, st, u, c):
+        if self.value_numbers:
+            self._vn_kill_bytes(st)
         cur = [st]
         ptypes = []
         if c and c[0] == 'fn':
@@ -1973,7 +1982,9 @@ class AI(object):
                 for k_ in [k_ for k_ in s2.mem if k_[0] in ids or (k_[0] == 'iter' and k_[1] in self._loop_ids(cf))]:
                     del s2.mem[k_]
                 if s2.rel:
-                    s2.rel = {k_: v_ for k_, v_ in s2.rel.items() if k_[0][0] not in ids and k_[1][0] not in ids}
+                    s2.rel = {k_: v_ for k_, v_ in s2.rel.items()
+                              if not (isinstance(k_[0], tuple) and k_[0] and k_[0][0] in ids) and
+                              not (len(k_) > 1 and isinstance(k_[1], tuple) and k_[1] and k_[1][0] in ids)}
                 if isinstance(v, StructV):
                     tmp = ('tmp', id(site), self.depth)
                     s2.copy_struct(v.loc, tmp)
@@ -2304,6 +2315,8 @@ class AI(object):
             for (vb, s2) in self.eval(b, s, u):
                 la = self._cmp_loc(a, s2, u)
                 lb = self._cmp_loc(b, s2, u)
+                if self.value_numbers and self._vn_refine(e, op, a, b, la, lb, va, vb, s2, u) is False:
+                    continue        # refuted by an equality between pointers / a known byte
                 r = self._constrain(op, va, vb)
                 if r is None:
                     continue
@@ -2365,6 +2378,101 @@ class AI(object):
                     if len(r) == 1 and r[0][0] is not None and r[0][0][0] not in ('tmp', 'unk'):
                         return ('pure', tg[0][0]) + tuple(r[0][0])
         return None
+
+    # -- value numbers: which pointer locals hold one and the same value, which values differ, and what byte a
+    #    value points at.  Kept in St.rel (joined by intersection): ('vn+', loc) -> n and ('vn-', loc) -> -n give loc
+    #    the number 'v<n>' (valid only while both agree, so a join of different numbers drops it);
+    #    ('ne', 'va', 'vb') -> 1;  ('dv+', 'v') -> c and ('dv-', 'v') -> -c : the byte at that pointer value is c.
+    def _vn(self, st, loc):
+        if loc is None:
+            return None
+        a_ = st.rel.get(('vn+', loc))
+        b_ = st.rel.get(('vn-', loc))
+        return 'v%d' % a_ if a_ is not None and b_ == -a_ else None
+
+    def _vn_new(self, st, loc, site):
+        n_ = (id(site) * 31 + hash(loc)) % (10 ** 12) + 1
+        i_ = 'v%d' % n_
+        # the number gets a new meaning here: drop what was known under it
+        for k_ in [k_ for k_ in st.rel if (k_[0] in ('vn+', 'vn-') and abs(st.rel[k_]) == n_) or
+                   (k_[0] == 'ne' and i_ in k_[1:]) or (k_[0] in ('dv+', 'dv-') and k_[1] == i_)]:
+            del st.rel[k_]
+        st.rel[('vn+', loc)] = n_
+        st.rel[('vn-', loc)] = -n_
+        return i_
+
+    def _vn_set(self, st, loc, i_):
+        n_ = int(i_[1:])
+        st.rel[('vn+', loc)] = n_
+        st.rel[('vn-', loc)] = -n_
+
+    def _vn_copy(self, st, dst, src_expr, u, site):
+        """dst = <pointer local>: both hold one value."""
+        x = peel(src_expr) if src_expr is not None else None
+        if x is None or x.get('kind') != 'DeclRefExpr':
+            return
+        r = self.lval(x, st.copy(), u)
+        if len(r) != 1 or r[0][0] is None or r[0][0] == dst:
+            return
+        src = r[0][0]
+        i_ = self._vn(st, src) or self._vn_new(st, src, site)
+        self._vn_set(st, dst, i_)
+
+    def _vn_kill_bytes(self, st):
+        if st.rel:
+            for k_ in [k_ for k_ in st.rel if k_[0] in ('dv+', 'dv-')]:
+                del st.rel[k_]
+
+    def _vn_deref(self, e, s, u):
+        """(loc of P) when e is *P or P[0] for a pointer local P."""
+        x = peel(e)
+        if x is None:
+            return None
+        p_ = None
+        if x.get('kind') == 'UnaryOperator' and x.get('opcode') == '*':
+            p_ = peel(kids(x)[0])
+        elif x.get('kind') == 'ArraySubscriptExpr' and self.folder(u).fold(kids(x)[1]) == 0:
+            p_ = peel(kids(x)[0])
+        if p_ is None or p_.get('kind') != 'DeclRefExpr':
+            return None
+        r = self.lval(p_, s.copy(), u)
+        return r[0][0] if len(r) == 1 and r[0][0] is not None else None
+
+    def _vn_refine(self, e, op, a, b, la, lb, va, vb, s2, u):
+        if isinstance(va, Ptr) and isinstance(vb, Ptr) and la is not None and lb is not None and op in ('==', '!='):
+            ia, ib = self._vn(s2, la), self._vn(s2, lb)
+            if op == '==':
+                if ia and ib and ('ne',) + tuple(sorted((ia, ib))) in s2.rel:
+                    return False
+                i_ = ia or ib or self._vn_new(s2, la, e)
+                self._vn_set(s2, la, i_)
+                self._vn_set(s2, lb, i_)
+            else:
+                if ia and ib and ia == ib:
+                    return False
+                ia = ia or self._vn_new(s2, la, e)
+                ib = ib or self._vn_new(s2, lb, b)
+                if ia != ib:
+                    s2.rel[('ne',) + tuple(sorted((ia, ib)))] = 1
+            return True
+        for (side, other, oval) in ((a, b, vb), (b, a, va)):
+            lp = self._vn_deref(side, s2, u)
+            if lp is None or not isinstance(oval, Int) or oval.const() is None or op not in ('==', '!='):
+                continue
+            c = oval.const()
+            ip = self._vn(s2, lp)
+            known = None
+            if ip is not None:
+                k1, k2 = s2.rel.get(('dv+', ip)), s2.rel.get(('dv-', ip))
+                known = k1 if k1 is not None and k2 == -k1 else None
+            if known is not None and ((op == '==' and known != c) or (op == '!=' and known == c)):
+                return False
+            if op == '==':
+                ip = ip or self._vn_new(s2, lp, side)
+                s2.rel[('dv+', ip)] = c
+                s2.rel[('dv-', ip)] = -c
+            return True
+        return True
 
     def _refine_alias(self, l_, new_, s2, u):
         """A const local initialised from a memoised accessor is that accessor's value."""
